@@ -14,7 +14,7 @@ import ast
 from ..core import walk_own, norm, is_self_attr, parent_map, AnalysisError
 from ..resolve import bind_args
 from ..report import Ob, Floor
-from ..rules import twin, count, memo, merge
+from ..rules import twin, count, memo, merge, prio
 from ..abseval import Evaluator, Opaque, Sym
 from .. import exceptions
 
@@ -287,6 +287,21 @@ def selector_table(ctx, clause):
     return obs
 
 
+def answers_unfiltered(ctx, clause):
+    """The nodes behind a SPARQL / FOCUS selector are the answers of its query: what get_target_nodes returns is (a copy
+    of) what the graph's query_single_variable returned - no filtering, re-typing or re-ordering step in between."""
+    g, p = ctx.flow, ctx.p
+    sel = p.method("NodeSelectorSparql", "get_target_nodes")
+    srcs = [g.ret(m) for c in p.classes.values() for name, m in c.methods.items() if name == "query_single_variable"
+            and not (len(m.node.body) == 1 and isinstance(m.node.body[0], ast.Raise))]
+    back = g.back([g.ret(sel)], labels=("copy",))
+    ok = any(s in back for s in srcs)
+    return [Ob(clause, "R-FLOW", "R-FLOW|selector-answers-unfiltered", sel.loc(), ok,
+               "NodeSelectorSparql.get_target_nodes returns the answers of query_single_variable as they are" if ok else
+               "what NodeSelectorSparql.get_target_nodes returns is no longer (a copy of) the answers of query_single_variable: a step in "
+               "between filters, rewrites or rebuilds the list, so the nodes behind the shape are not exactly the answers of the selector")]
+
+
 def tracker_tables(ctx, clause):
     """The instance tracker's own decisions: which triples declare an instance (mode predicates), what a declaration
     records (node -> class appended), and how the mixed tracker integrates a secondary tracker's dictionary."""
@@ -351,7 +366,9 @@ def check(ctx, tier):
     from .c16 import filter_placement          # (c16 imports this module: late import)
     obs += [o for o in ctx.attempt(filter_placement, ctx, "D-g", default=[]) if o.key.endswith("instance-pass")]
     obs += ctx.attempt(selector_table, ctx, "D-h", default=[])
+    obs += ctx.attempt(answers_unfiltered, ctx, "D-h", default=[])
     obs += ctx.attempt(tracker_tables, ctx, "D-i", default=[])
+    obs += ctx.attempt(lambda c, cl: prio.check(c, cl)[0], ctx, "D-j", default=[])
     exceptions.apply(obs)
     floors = [Floor("rdf:type constants in the package", n_consts, 4), Floor("uses of rdf:type constants outside defaults", n_uses, 4),
               Floor("instantiation-property call sites", n_pl, 10), Floor("selection table rows", rows, 40)]
